@@ -278,7 +278,8 @@ def run(pid, tier, seed, replay=None):
         "repo_rev": vlib.repo_rev(),
     }
     coverage.update(ctx.notes)
-    vlib.write_evidence(pid, tier, seed, coverage, time.time() - t0, nviol, list(getattr(mod, "ASSUMPTIONS", [])))
+    vlib.write_evidence(pid, tier, seed, coverage, time.time() - t0, nviol, list(getattr(mod, "ASSUMPTIONS", [])),
+                        scratch=bool(replay))   # a replay of one case is not the property's evidence
     lock.release()
     for l in known_lines:
         print(l)
